@@ -83,8 +83,8 @@ def tlc_code(chk, nsess):
 
 def tlc_simulate(chk, num):
     res = vlib.run_tlc("Auth", "sim.cfg", workers=1, timeout=600,
-                       files=[("sim.cfg", cfg("policy", nsess=3, maxsteps=7, emit=True, invs="TypeOK EmitHistory", view=""))],
-                       extra=["-simulate", "num=%d" % num, "-depth", "12", "-seed", str(chk.seed)], tag="C18sim")
+                       files=[("sim.cfg", cfg("policy", nsess=3, maxsteps=6, emit=True, invs="TypeOK EmitHistory", view=""))],
+                       extra=["-simulate", "num=%d" % num, "-depth", "10", "-seed", str(chk.seed)], tag="C18sim")
     if res.error or res.violation:
         raise MachineryFault("Auth simulation: %s %s" % (res.error, res.violation))
     return res, vlib.printed_json(res.out)
@@ -133,17 +133,16 @@ def run(chk, args):
     wd = vlib.scratch("C18")
     rng = random.Random(chk.seed)
 
-    # ---------------- TLC: policy matrix, code model, simulated histories (in parallel)
-    with cf.ThreadPoolExecutor(3) as ex:
-        f_pol = ex.submit(tlc_policy, chk, wd, nsess)
-        f_code = ex.submit(tlc_code, chk, nsess)
-        f_sim = ex.submit(tlc_simulate, chk, 400 if thorough else 60)
-        pol, rows = f_pol.result()
-        code = f_code.result()
-        sim, sims = f_sim.result()
+    # ---------------- TLC (policy matrix | code model | simulation) and the real server (matrix | histories) overlap:
+    # the matrix processes start as soon as TLC has written the matrix, the history process once the code model
+    # and the simulation have produced the histories
+    roles = ["RW"] if selftest else ROLES
+    ex = cf.ThreadPoolExecutor(16)
+    f_pol = ex.submit(tlc_policy, chk, wd, nsess)
+    f_code = ex.submit(tlc_code, chk, nsess)
+    f_sim = ex.submit(tlc_simulate, chk, 600 if thorough else 120)
+    pol, rows = f_pol.result()
     chk.add_tlc(pol, "Auth policy NSess=%d (exhaustive, matrix of %d rows)" % (nsess, len(rows)))
-    chk.add_tlc(code["design"], "Auth code model, quirks off (design satisfies the policy)")
-    chk.add_tlc(sim, "Auth policy simulation (%d histories)" % len(sims))
     permitted = sum(1 for r in rows if r["permitted"])
     chk.cov["policy_matrix"] = {"rows": len(rows), "permitted": permitted, "forbidden": len(rows) - permitted,
                                 "by_effect": {e: sum(1 for r in rows if r["eff"] == e) for e in sorted({r["eff"] for r in rows})}}
@@ -159,6 +158,21 @@ def run(chk, args):
     policy_path = os.path.join(wd, "policy.json")
     json.dump({"rows": rows}, open(policy_path, "w"))
 
+    futures = []
+    for role in roles:
+        d = os.path.join(wd, "srv_" + role)
+        os.makedirs(d)
+        a = ["-mode", "matrix", "-policy", policy_path, "-trace", os.path.join(wd, "trace_%s.ndjson" % role), "-dir", d, "-seed", str(chk.seed), "-roles", role]
+        if selftest:
+            a += ["-kinds", "session"]
+        if thorough:
+            a += ["-fullprepare"]
+        futures.append((role, ex.submit(run_harness, binp, a, wd, role)))
+
+    code = f_code.result()
+    sim, sims = f_sim.result()
+    chk.add_tlc(code["design"], "Auth code model, quirks off (design satisfies the policy)")
+    chk.add_tlc(sim, "Auth policy simulation (%d behaviours)" % len(sims))
     hists = []
     for name, q, fixed_flag in QUIRKS:
         c = code[name]
@@ -173,9 +187,21 @@ def run(chk, args):
         h = hist_of(st)
         h["origin"] = "tlc-counterexample:%s:%s" % (name, c.violation)
         hists.append(h)
+    # simulated behaviours: the management steps are what is replayed (the abstract call of the policy model is not
+    # executable); de-duplicate and draw a seeded sample
+    prefixes = {}
     for s in sims:
-        hists.append({"role": s["role"], "hist": s["hist"], "origin": "tlc-simulation"})
-    # the histories the brief names explicitly, whatever the simulation sampled
+        h = [e for e in s["hist"] if e["op"] != "call"]
+        if h:
+            prefixes[json.dumps([s["role"], h], sort_keys=True)] = (s["role"], h)
+    keys = sorted(prefixes)
+    rng.shuffle(keys)
+    nsim = 150 if thorough else 20
+    for k in keys[:nsim]:
+        role, h = prefixes[k]
+        hists.append({"role": role, "hist": h, "origin": "tlc-simulation"})
+    chk.cov["simulated_histories"] = {"printed": len(sims), "distinct": len(keys), "replayed": min(nsim, len(keys))}
+    # the histories behind the reference-count finding, for every role, whatever the simulation sampled
     def ev(op, s=0, kind="-", db="-", p="-", after=(), cur="-", active=True):
         return {"op": op, "s": s, "kind": kind, "db": db, "p": p, "after": list(after), "cur": cur, "active": active}
     for role in ["R", "RW", "Admin"]:
@@ -184,21 +210,6 @@ def run(chk, args):
             ev("login", 2, "token", "none", after=["valid", "valid"], cur=role),
             ev("deactivate", after=["userDeactivated", "userDeactivated"], cur=role, active=False),
             ev("call", 1, "token", "sel", "kvWrite", after=["userDeactivated", "userDeactivated"], cur=role, active=False)]})
-    hist_path = os.path.join(wd, "hist.json")
-    json.dump(hists, open(hist_path, "w"))
-
-    # ---------------- the real server: matrix (one process per role) and histories
-    roles = ["RW"] if selftest else ROLES
-    jobs = []
-    for role in roles:
-        d = os.path.join(wd, "srv_" + role)
-        os.makedirs(d)
-        a = ["-mode", "matrix", "-policy", policy_path, "-trace", os.path.join(wd, "trace_%s.ndjson" % role), "-dir", d, "-seed", str(chk.seed), "-roles", role]
-        if selftest:
-            a += ["-kinds", "session"]
-        if thorough:
-            a += ["-fullprepare"]
-        jobs.append((role, a))
     if not selftest:
         nh = 2 if thorough else 1
         for i in range(nh):
@@ -206,10 +217,10 @@ def run(chk, args):
             os.makedirs(d)
             part = os.path.join(wd, "hist_%d.json" % i)
             json.dump(hists[i::nh], open(part, "w"))
-            jobs.append(("hist%d" % i, ["-mode", "hist", "-policy", policy_path, "-hist", part, "-trace", os.path.join(wd, "trace_hist%d.ndjson" % i),
-                                        "-dir", d, "-seed", str(chk.seed)]))
-    with cf.ThreadPoolExecutor(len(jobs)) as ex:
-        results = list(ex.map(lambda j: (j[0], run_harness(binp, j[1], wd, j[0])), jobs))
+            a = ["-mode", "hist", "-policy", policy_path, "-hist", part, "-trace", os.path.join(wd, "trace_hist%d.ndjson" % i), "-dir", d, "-seed", str(chk.seed)]
+            futures.append(("hist%d" % i, ex.submit(run_harness, binp, a, wd, "hist%d" % i)))
+    results = [(name, f.result()) for name, f in futures]
+    ex.shutdown()
 
     # ---------------- trace validation: all requests of all processes, judged by TLC in the reconstructed state
     text, offset, harness_bad, total_cells = "", 0, set(), 0
